@@ -11,7 +11,7 @@ Event language (dicts):
   {"op":"create","T":tab}                            PeriodicTable(tab) + mass.init + density.init
   {"op":"assign","T":tab, "a":atom, "p":prop}         setattr(atom, prop, <marker value>)
   {"op":"mutate","T":tab, "a":atom, "p":prop}         in-place change of the mutable value served
-  {"op":"parse", "T":tab} / {"op":"pickle","T":tab,"a":atom}
+  {"op":"parse", "T":tab} / {"op":"pickle","T":tab,"a":atom} / {"op":"tcalc","T":tab} calculators with table=T after T's masses were changed
 Atoms are the model's representatives: e0 eD eN iD iN ionD iion.
 """
 import hashlib
@@ -504,6 +504,21 @@ def execute_event(ev):
                 formulas.formula_grammar(table=t).parse_string("CoO", parse_all=True)[0]]
         ok = all(_owner(a) is t for f in made if f is not None for a in f.atoms)
         return {"cls": "T" if ok else "F"}
+    if op == "tcalc":
+        # the owner of T changes some of its data and runs the calculators with table=T; nothing of it may show on
+        # another table (module-level caches keyed without the table would)
+        from periodictable import nsf
+        t = table(ev["T"])
+        t.H._mass = t.H._mass * 1.5
+        t.O._mass = t.O._mass * 1.25
+        try:
+            nsf.D2O_match("C3H4H[1]NO@1.29n", table=t)
+            nsf.D2O_sld("C3H4H[1]NO@1.29n", volume_fraction=0.5, D2O_fraction=0.3, table=t)
+            P.neutron_sld("CoH2O", density=1.0, wavelength=1.8, table=t)
+            P.xray_sld("CoSi3N4O", density=2.2, energy=8.0, table=t)
+        except Exception as e:
+            return {"cls": "X", "exc": type(e).__name__, "msg": str(e)[:100]}
+        return {"cls": "ok"}
     if op == "pickle":
         how = ev.get("how", "plain")
         if how == "after-refused-duplicate":
